@@ -139,4 +139,39 @@ example : (run [.submit m1, .submit m2, .flush 4, .readEvent, .transfer, .write 
     .transfer, .write 9]).written = [1, 2, 3, 4, 5, 6] := by decide
 example : (takeBatch 4 0 [m1, m2, m3]).1 = [m1] ∧ (takeBatch 2 0 [m1, m2]).1 = [m1] := by decide
 
+/-! ### the hand-over of the pinned tree (batch attached to the selector registration) does NOT have the
+property: a read event drops it, a partial write re-delivers it -/
+
+structure PSt where
+  attached : Option Bytes     -- the batch attached to the selector key (`selector.modify(…, data=stream)`)
+  dataStream : Bytes          -- `data_stream`
+  queued : Bool               -- `send_data_stream_queued`
+  sendbuf : Bytes
+  written : Bytes
+deriving DecidableEq, Repr
+
+inductive PAct | flush (b : Bytes) | round (n : Nat) | readEvent
+deriving Repr
+
+/-- `round n`: one pass of `_run` with a write event in which `sock.send` accepts n bytes -/
+def pstep (s : PSt) : PAct → PSt
+  | .flush b => { s with attached := some b }
+  | .readEvent => { s with attached := none }          -- `_set_selector_events_mask("r")` re-registers without data
+  | .round n =>
+    let s1 := match s.attached with | some b => { s with dataStream := s.dataStream ++ b } | none => s
+    let s2 := if !s1.queued && !s1.dataStream.isEmpty
+              then { s1 with sendbuf := s1.sendbuf ++ s1.dataStream, dataStream := [], queued := true } else s1
+    let s3 := { s2 with written := s2.written ++ s2.sendbuf.take n, sendbuf := s2.sendbuf.drop n }
+    if s3.queued && s3.sendbuf.isEmpty then { s3 with attached := none, queued := false } else s3
+
+def pinit : PSt := { attached := none, dataStream := [], queued := false, sendbuf := [], written := [] }
+
+/-- a read event between the flush and the write pass: the batch is gone -/
+theorem pinned_read_event_loses :
+    ([PAct.flush [1, 2, 3], .readEvent, .round 10].foldl pstep pinit).written = [] := by decide
+
+/-- a partial write keeps the batch attached: it is appended to the output again on the next pass -/
+theorem pinned_partial_write_duplicates :
+    ([PAct.flush [1, 2, 3], .round 2, .round 10, .flush [4], .round 10].foldl pstep pinit).written = [1, 2, 3, 1, 2, 3, 4] := by decide
+
 end BV.C05
